@@ -26,6 +26,7 @@ from ... import Models, Simulations
 # materials
 from .._utils import _IModel
 from ...Utilities import _params, _types
+from ...Utilities._observers import Observable, _IObserver
 
 # Linear-order 2-D element types. The Saint-Venant Poisson solution is cubic
 # for typical sections, so these only achieve O(h²) — _shear_kappa warns once.
@@ -36,7 +37,7 @@ _LINEAR_2D_ELEMS = (ElemType.TRI3, ElemType.QUAD4)
 # ----------------------------------------------
 
 
-class _Beam(_IModel):
+class _Beam(_IModel, _IObserver):
     """Beam class model."""
 
     # number of created beams
@@ -172,14 +173,41 @@ class _Beam(_IModel):
         assert (
             section.inDim == 2
         ), "The cross-beam section must be contained in the (x,y) plane."
-        # make sure that the section is centered in (0,0)
-        section.Translate(*-section.center)
+        self.__Center_section(section)
         Iyz = section.groupElem.Integrate_e(lambda x, y, z: x * y).sum()
         assert np.abs(Iyz) <= 1e-9, "The section must have at least 1 symetry axis."
+        try:
+            self.__section._Remove_observer(self)
+        except AttributeError:
+            pass  # first section
         self.__section: "Mesh" = section
+        # area, inertias and shear correction factors are read from the section mesh:
+        # the beam must hear about its modifications (Translate, Rotate, Symmetry, coord)
+        section._Add_observer(self)
         # the shear correction factors are properties of the section
         self._Update_shear_correction_factors()
         self.Need_Update()
+
+    @staticmethod
+    def __Center_section(section: "Mesh") -> None:
+        """Makes sure that the section is centered in (0,0).\n
+        A section that already is (e.g. one shared with other beams) is not moved."""
+        center = section.center
+        size = np.linalg.norm(np.ptp(section.coord, axis=0))
+        if np.linalg.norm(center) > 1e-12 * size:
+            section.Translate(*-center)
+
+    def _Update(self, observable: Observable, event: str) -> None:
+        if observable is self.__section:
+            # the section has been modified: keep it centered (without listening to that move)
+            section = self.__section
+            section._Remove_observer(self)
+            try:
+                self.__Center_section(section)
+            finally:
+                section._Add_observer(self)
+            self._Update_shear_correction_factors()
+            self.Need_Update()
 
     def _Update_shear_correction_factors(self) -> None:
         """Sets ``_ky`` and ``_kz`` to the Cowper-ν=0 values of the current section."""
